@@ -302,3 +302,10 @@ Proof.
   match goal with |- context [each_loop ?f ?x ?b ?l ?e] => set (W := each_loop f x b l e) in * end.
   destruct W; try contradiction. cbn [exec eval get nth_error] in L |- *. rewrite L. reflexivity.
 Qed.
+
+(* ---------------------------------------------------------------- the overloads of join
+   the vector overload only forwards [begin, end) and its infix to the iterator overload, and both default the infix to one
+   blank — the value the differential driver and the model use for the calls without an infix *)
+Theorem tie_C17_join_overloads :
+  gen_join_vector_forwards = true /\ gen_join_default_infix_iter = Some [x20] /\ gen_join_default_infix_vec = Some [x20].
+Proof. vm_compute. repeat split; reflexivity. Qed.
